@@ -90,7 +90,9 @@ fn c12_auxpow_sections() {
                 check(blk.aux_pow_extension.is_some() == needs, suite, "C12:auxpow_parsed_iff_version_at_or_above_threshold", &inp, &format!("{}", blk.aux_pow_extension.is_some()), &format!("{}", needs));
                 check(cur.position() == raw.len() as u64, suite, "C12:auxpow_section_consumed_exactly", &inp, &format!("consumed {}", cur.position()), &format!("{}", raw.len()));
                 check(blk.header.hash.to_byte_array() == b.hash(), suite, "C01,C12:block_hash_is_sha256d_of_the_80_header_bytes", &inp, &hex(&blk.header.hash.to_byte_array()[..4]), &hex(&b.hash()[..4]));
-                check(blk.verify_merkle_root().is_ok(), suite, "C12:derived_outputs_unaffected_by_the_section", &format!("{} verify_merkle_root", inp), "Err", "Ok");
+                // (merkle root over the delivered txids, computed by the kit: the header's root must still be the tree of the block's own txs)
+                { let leaves: Vec<[u8; 32]> = blk.txs.iter().map(|t| t.hash.to_byte_array()).collect();
+                  check(!leaves.is_empty() && ref_merkle(&leaves) == blk.header.value.merkle_root.to_byte_array(), suite, "C12:derived_outputs_unaffected_by_the_section", &format!("{} merkle root of the delivered txids", inp), "differs from the header field", "equal"); }
                 let got: Vec<[u8; 32]> = blk.txs.iter().map(|t| t.hash.to_byte_array()).collect();
                 let want: Vec<[u8; 32]> = body.iter().map(|t| t.txid()).collect();
                 check(got == want, suite, "C12:transaction_list_unaffected_by_the_section", &inp, &format!("{} txs {:?}", got.len(), got.iter().map(|x| hex(&x[..3])).collect::<Vec<_>>()), &format!("{} txs", want.len()));
